@@ -16,6 +16,7 @@ from nix_manipulator.expressions.layout import empty_line, linebreak
 from nix_manipulator.expressions.scope import ScopeLayer, ScopeState
 from nix_manipulator.expressions.set import (
     _collect_attrpath_order,
+    _join_rendered_bindings,
     _render_bindings,
     _select_render_values,
 )
@@ -226,7 +227,7 @@ class LetExpression(TypedExpression):
             )
 
         render_values = _select_render_values(self.local_variables, self.attrpath_order)
-        bindings_str = "\n".join(
+        bindings_str = _join_rendered_bindings(
             _render_bindings(render_values, indent=indented, inline=False)
         )
         binding_suffix = "" if bindings_str.endswith("\n") else "\n"
